@@ -296,6 +296,76 @@ func TestVerifC14(t *testing.T) {
 		}
 		r.Eval("mixed:" + c.cls)
 	})
+	// ------------------------------------------------------------ long-lived point objects
+	// [k]P must be right for the CURRENT value of a point object that has been multiplied before and
+	// then updated in place by any mutator (Set, SetBytes, Negate, Add, Double, Select, MultiSelectXYZ)
+	for h := 0; h < hk.N(120, 1200); h++ {
+		lr := hk.NewRNG(hk.Seed(), fmt.Sprintf("c14obj/%d", h))
+		A := pts[lr.Intn(len(pts))]
+		B := pts[lr.Intn(len(pts))]
+		P := fromRef(A, new(big.Int).SetBytes(lr.Bytes(12)))
+		Q := fromRef(B, new(big.Int).SetBytes(lr.Bytes(12)))
+		shadow := A
+		var hist []string
+		for step := 0; step < 5; step++ {
+			k := lr.Bytes(32)
+			if lr.Intn(3) == 0 {
+				k = lr.Bytes(1 + lr.Intn(40))
+			}
+			got, err := ScalarMult(P, k)
+			hist = append(hist, fmt.Sprintf("ScalarMult(P,%x)", k))
+			if err != nil {
+				r.Violation("object-history:scalarmult-error", hk.D{"history": hist})
+				break
+			}
+			want := shadow.Mul(new(big.Int).SetBytes(k))
+			if g, _ := toRef(got); !g.Eq(want) {
+				r.Violation("object-history:scalarmult-wrong-after-in-place-update", hk.D{"history": hist, "P": ptHex(shadow), "k": hk.Hex(k), "got": ptHex(g), "want": ptHex(want)})
+				break
+			}
+			switch m := lr.Intn(8); m {
+			case 0:
+				P.Select(Q, P, 1)
+				shadow = B
+				hist = append(hist, "P.Select(Q,P,1)")
+			case 1:
+				P.Select(P, Q, 0)
+				shadow = B
+				hist = append(hist, "P.Select(P,Q,0)")
+			case 2:
+				P.Set(Q)
+				shadow = B
+				hist = append(hist, "P.Set(Q)")
+			case 3:
+				P.Negate(P)
+				shadow = shadow.Neg()
+				hist = append(hist, "P.Negate(P)")
+			case 4:
+				P.Add(P, Q)
+				shadow = shadow.Add(B)
+				hist = append(hist, "P.Add(P,Q)")
+			case 5:
+				P.Double(P)
+				shadow = shadow.Dbl()
+				hist = append(hist, "P.Double(P)")
+			case 6:
+				if !B.Inf {
+					P.SetBytes(append([]byte{4}, append(ref.B32(B.X), ref.B32(B.Y)...)...))
+					shadow = B
+					hist = append(hist, "P.SetBytes(enc(Q))")
+				}
+			default:
+				// masked selection from a transformed table writes P's coordinates too
+				pre := []*SM2Point{Q, NewSM2Point().Double(Q), NewSM2Point().Add(NewSM2Point().Double(Q), Q)}
+				tbl := TransformPrecomputed(&pre, 3)
+				bits := byte(1 + lr.Intn(3))
+				P.MultiSelectXYZ(&tbl, 3, bits)
+				shadow = B.Mul(bi(int64(bits)))
+				hist = append(hist, fmt.Sprintf("P.MultiSelectXYZ(Q-table,%d)", bits))
+			}
+		}
+		r.Eval("var:object-history")
+	}
 	// package-level state must be what it was
 	if g, _ := toRef(sm2G); !g.Eq(ref.G()) || rawBig(sm2ElementOne).Cmp(bi(1)) != 0 || rawBig(sm2B).Cmp(ref.SM2B) != 0 {
 		r.Violation("package-state-corrupted-after-scalar-multiplications", hk.D{})
